@@ -122,6 +122,9 @@ def main(argv):
   shutil.rmtree(workdir, ignore_errors=True)
   os.makedirs(workdir, exist_ok=True)
   budget = getattr(mod, "BUDGET", {"quick": 120, "thorough": 1500})[tier]
+  # development aid: VERIF_SCALE < 1 shrinks example counts and the time guard (e.g. to smoke-test a thorough tier)
+  scale = float(os.environ.get("VERIF_SCALE", "1"))
+  budget = max(20.0, budget * scale)
 
   tasks = []
   replay_index = []
@@ -152,7 +155,7 @@ def main(argv):
         tasks.append({
             "module": modname, "kind": "gen", "shard": shard, "tier": tier,
             "part": part, "parts": parts,
-            "examples": max(1, int(shard.get("examples", 100)) // parts),
+            "examples": max(1, int(int(shard.get("examples", 100)) * scale) // parts),
             "seed": seed * 100003 + len(tasks) * 101 + 7,
             "budget_s": budget,
             "shrink_s": getattr(mod, "SHRINK_S", {"quick": 45, "thorough": 240})[tier],
